@@ -724,7 +724,7 @@ pub fn udp_policy(sel: u64) -> Result<&'static str, Failure> {
             let mut got_deny = false;
             let mut got_other = false;
             // the server task needs a moment to open its socket; a request that must be served is retried
-            for attempt in 0..40u64 {
+            for attempt in 0..100u64 {
                 probe[40..48].copy_from_slice(&(0x504f_4c49_4359_0000u64 | attempt).to_be_bytes());
                 let _ = sock.send(&probe).await;
                 let wait = if want == Want::Time { 50 } else { 20 };
@@ -747,6 +747,10 @@ pub fn udp_policy(sel: u64) -> Result<&'static str, Failure> {
             let ctx = || format!("client {client_ip}, deny list {deny:?} (action deny: {deny_is_deny}), allow list {allow:?} (action deny: {allow_is_deny})");
             match want {
                 Want::Time => {
+                    if !got_time && !got_deny && !got_other && std::net::UdpSocket::bind(listen).is_ok() {
+                        // the server task never got its socket open (the port is still free): nothing was tested
+                        return Ok("e2e-policy-unavailable");
+                    }
                     if !got_time {
                         return Err(Failure { signature: "e2e-allowed-client-not-served".into(), what: format!("{}: no time answer (deny kiss: {got_deny})", ctx()) });
                     }
